@@ -76,7 +76,10 @@ func (session *BasicHttpSubSession) Write(b []byte) {
 			PayloadLength: uint64(len(b)),
 			Masked:        false,
 		}
-		session.write(MakeWsFrameHeader(wsHeader))
+		// 注意，websocket的帧头和负载必须作为一个整体进入发送队列，
+		// 如果分两次写入，发送队列在两次写入之间满了，就会出现只有帧头没有负载的情况，接收端后续的帧全部解析错位
+		_, _ = session.conn.Writev(net.Buffers{MakeWsFrameHeader(wsHeader), b})
+		return
 	}
 	session.write(b)
 }
